@@ -423,17 +423,31 @@ def r_argbest(xs, better):
             if better(xs[i], xs[best]) is True:
                 best = i
         return best
+    # pairwise strict comparisons computed once: lt[i][j] = better(xs[i], xs[j])
+    cache = {}
+
+    def b(i, j):
+        if (i, j) not in cache:
+            cache[(i, j)] = better(xs[i], xs[j])
+        return cache[(i, j)]
     cases = []
     for i in range(n):
-        g = True
+        conj = []
+        dead = False
         for j in range(n):
             if j == i:
                 continue
             # i wins against j: strictly better if j comes before i, at least as good otherwise
-            c = better(xs[i], xs[j]) if j < i else S.bnot(better(xs[j], xs[i]))
-            g = S.band(g, c)
-            if g is False:
-                break
+            c = b(i, j) if j < i else S.bnot(b(j, i))
+            if type(c) in _CONC:
+                if not c:
+                    dead = True
+                    break
+                continue
+            conj.append(S.zbool(c))
+        if dead:
+            continue
+        g = True if not conj else S.BX(z3.And(conj) if len(conj) > 1 else conj[0])
         cases.append((g, i))
     return S.mkcases(cases)
 
